@@ -1,13 +1,315 @@
-//! C02 — not implemented yet.
+//! C02 — level gating through the `log` facade. The global logger and `log::max_level()` are per process,
+//! so every case runs in a child process (`verif-harness child c02`, case line on stdin):
+//! one of the init paths, then `Handle::set_config` per further configuration; after each step the child
+//! prints `log::max_level()`, `log::logger().enabled(..)` for targets × five levels, and what
+//! `log::log!(target: t, lvl, "x")` delivered.
+//! case:  initPath  targets(,)  then 4 fields per configuration (see c01.rs)
+//! obs:   steps joined by `/`:  max : enabled bits : deliveries(, per target × level; names joined by ;)
+//! Paths `config` / `handler` use capturing appenders. Paths `raw` / `file` can only name built-in appender
+//! kinds: every appender is a `file` appender in append mode on one shared scratch file whose pattern is the
+//! appender's (encoded) name, so the file's new lines after a macro call are the call sequence.
+use crate::c01::{self, Cfg, LCfg};
+use crate::proto::*;
 use crate::rng::Rng;
+use std::io::{Read, Write};
+use std::sync::{Arc, Mutex};
 
-pub fn gen(_rng: &mut Rng, _n: usize, _thorough: bool, _emit: &mut dyn FnMut(String)) {}
+const PATHS: &[&str] = &["config", "handler", "raw", "file"];
+const LEVEL_NAMES: &[&str] = &["off", "error", "warn", "info", "debug", "trace"];
 
-pub fn exec(_fields: &[&str]) -> String {
-    "unimplemented".to_owned()
+// ------------------------------------------------------------------------------------------------
+// generator
+// ------------------------------------------------------------------------------------------------
+/// only a deep descendant is verbose
+fn deep_verbose_cfg(rng: &mut Rng) -> Cfg {
+    let comps = ["a", "b", "ab", "é"];
+    let depth = rng.range(2, 4) as usize;
+    let parts: Vec<&str> = (0..depth).map(|_| *rng.pick(&comps)).collect();
+    let deep = parts.join("::");
+    let mut loggers = vec![LCfg {
+        name: deep.clone(),
+        level: rng.range(3, 5) as u8,
+        additive: rng.chance(2, 3),
+        refs: vec!["x".to_string()],
+    }];
+    // quieter ancestors / siblings
+    if rng.chance(1, 2) {
+        loggers.push(LCfg { name: parts[0].to_string(), level: rng.range(0, 2) as u8, additive: true, refs: vec!["y".to_string()] });
+    }
+    if rng.chance(1, 3) {
+        let sib = format!("{}b", deep);
+        loggers.push(LCfg { name: sib, level: rng.range(0, 2) as u8, additive: rng.chance(1, 2), refs: vec![] });
+    }
+    rng.shuffle(&mut loggers);
+    Cfg {
+        appenders: vec!["x".into(), "y".into()],
+        root_level: rng.range(0, 2) as u8,
+        root_refs: if rng.chance(2, 3) { vec!["y".to_string()] } else { vec![] },
+        loggers,
+    }
 }
 
-/// child-process entry point (`verif-harness child c02 …`), for checks that need process-global state
+/// move the levels of the previous configuration up or down
+fn mutate_levels(rng: &mut Rng, c: &Cfg) -> Cfg {
+    let mut d = c.clone();
+    let bump = |rng: &mut Rng, l: u8| -> u8 {
+        match rng.below(4) {
+            0 => l,
+            1 => (l + rng.range(1, 3) as u8).min(5),
+            2 => l.saturating_sub(rng.range(1, 3) as u8),
+            _ => rng.range(0, 5) as u8,
+        }
+    };
+    d.root_level = bump(rng, d.root_level);
+    for l in d.loggers.iter_mut() {
+        l.level = bump(rng, l.level);
+    }
+    if !d.loggers.is_empty() && rng.chance(1, 4) {
+        let i = rng.below(d.loggers.len() as u64) as usize;
+        d.loggers.remove(i);
+    }
+    if rng.chance(1, 3) {
+        d = c01::shuffled(rng, &d);
+    }
+    d
+}
+
+fn one_cfg(rng: &mut Rng) -> Cfg {
+    if rng.chance(2, 5) {
+        deep_verbose_cfg(rng)
+    } else {
+        c01::rand_cfg(rng, 4, 4)
+    }
+}
+
+pub fn gen(rng: &mut Rng, n: usize, thorough: bool, emit: &mut dyn FnMut(String)) {
+    for i in 0..n {
+        let path = match i % 10 {
+            0..=3 => "config",
+            4..=6 => "handler",
+            7 | 8 => "raw",
+            _ => "file",
+        };
+        let mut cfgs = vec![one_cfg(rng)];
+        if path == "config" || path == "handler" {
+            let k = rng.range(0, if thorough { 8 } else { 4 });
+            for _ in 0..k {
+                let prev = cfgs.last().unwrap().clone();
+                let next = match rng.below(5) {
+                    0 => one_cfg(rng),
+                    1 => {
+                        // everything off, or everything maximal
+                        let mut d = prev.clone();
+                        let v = if rng.chance(1, 2) { 0 } else { 5 };
+                        d.root_level = v;
+                        for l in d.loggers.iter_mut() {
+                            l.level = v;
+                        }
+                        d
+                    }
+                    _ => mutate_levels(rng, &prev),
+                };
+                cfgs.push(next);
+            }
+        }
+        // targets: configured names over all steps, extensions, partial matches, oddities
+        let mut targets: Vec<String> = vec![];
+        for c in &cfgs {
+            for t in c01::targets_for(rng, c, 4) {
+                if !targets.contains(&t) {
+                    targets.push(t);
+                }
+            }
+        }
+        rng.shuffle(&mut targets);
+        targets.truncate(if thorough { 8 } else { 5 });
+        for s in ["", "a::b"] {
+            if !targets.iter().any(|t| t == s) {
+                targets.push(s.to_string());
+            }
+        }
+        let ts: Vec<String> = targets.iter().map(|t| enc_str(t)).collect();
+        let cs: Vec<String> = cfgs.iter().map(|c| c.encode()).collect();
+        emit(format!("{}\t{}\t{}", path, enc_list(",", &ts), cs.join("\t")));
+    }
+}
+
+// ------------------------------------------------------------------------------------------------
+// parent side: spawn the child, hand it the case, return its observation
+// ------------------------------------------------------------------------------------------------
+pub fn exec(fields: &[&str]) -> String {
+    if fields.len() < 6 || (fields.len() - 2) % 4 != 0 || !PATHS.contains(&fields[0]) {
+        return "bad-case".to_owned();
+    }
+    let exe = match std::env::current_exe() {
+        Ok(e) => e,
+        Err(_) => return "INFRA:no-exe".to_owned(),
+    };
+    let mut ch = match std::process::Command::new(exe)
+        .args(["child", "c02"])
+        .stdin(std::process::Stdio::piped())
+        .stdout(std::process::Stdio::piped())
+        .stderr(std::process::Stdio::null())
+        .spawn()
+    {
+        Ok(c) => c,
+        Err(_) => return "INFRA:spawn".to_owned(),
+    };
+    {
+        let mut stdin = ch.stdin.take().unwrap();
+        let _ = stdin.write_all(fields.join("\t").as_bytes());
+        let _ = stdin.write_all(b"\n");
+    }
+    let mut out = String::new();
+    let _ = ch.stdout.take().unwrap().read_to_string(&mut out);
+    let status = ch.wait();
+    let line = out.lines().next().unwrap_or("").to_owned();
+    match status {
+        Ok(s) if s.success() && !line.is_empty() => line,
+        Ok(s) => format!("CHILD-FAILED:{}:{}", s.code().unwrap_or(-1), line),
+        Err(_) => "INFRA:wait".to_owned(),
+    }
+}
+
+// ------------------------------------------------------------------------------------------------
+// child side
+// ------------------------------------------------------------------------------------------------
+enum Capture {
+    Memory(Arc<Mutex<Vec<String>>>),
+    File { path: std::path::PathBuf, offset: u64 },
+}
+
+impl Capture {
+    /// what was delivered since the last call
+    fn take(&mut self) -> Vec<String> {
+        match self {
+            Capture::Memory(s) => std::mem::take(&mut *s.lock().unwrap()),
+            Capture::File { path, offset } => {
+                let data = std::fs::read(&*path).unwrap_or_default();
+                let new = data[(*offset as usize).min(data.len())..].to_vec();
+                *offset = data.len() as u64;
+                String::from_utf8_lossy(&new).lines().map(|l| dec_str(l).unwrap_or_else(|| format!("?{}", l))).collect()
+            }
+        }
+    }
+}
+
+fn raw_json(c: &Cfg, out: &std::path::Path) -> String {
+    use serde_json::{json, Map, Value};
+    let mut apps = Map::new();
+    for a in &c.appenders {
+        apps.insert(
+            a.clone(),
+            json!({"kind": "file", "path": out.to_str().unwrap(), "append": true,
+                   "encoder": {"kind": "pattern", "pattern": format!("{}{{n}}", enc_str(a))}}),
+        );
+    }
+    let mut loggers = Map::new();
+    for l in &c.loggers {
+        loggers.insert(
+            l.name.clone(),
+            json!({"level": LEVEL_NAMES[l.level as usize], "additive": l.additive, "appenders": l.refs}),
+        );
+    }
+    let doc = json!({
+        "appenders": Value::Object(apps),
+        "root": {"level": LEVEL_NAMES[c.root_level as usize], "appenders": c.root_refs},
+        "loggers": Value::Object(loggers),
+    });
+    doc.to_string()
+}
+
+fn observe(targets: &[String], cap: &mut Capture) -> String {
+    let _ = cap.take();
+    let max = c01::filter_num(log::max_level());
+    let mut bits = String::new();
+    let mut deliv: Vec<String> = vec![];
+    for t in targets {
+        for l in 1..=5u8 {
+            let md = log::Metadata::builder().target(t).level(c01::level_of(l)).build();
+            bits.push(if log::logger().enabled(&md) { '1' } else { '0' });
+        }
+    }
+    for t in targets {
+        for l in 1..=5u8 {
+            log::log!(target: t.as_str(), c01::level_of(l), "x");
+            deliv.push(c01::render_names(&cap.take()));
+        }
+    }
+    format!("{}:{}:{}", max, bits, enc_list(",", &deliv))
+}
+
+fn child_run(fields: &[&str]) -> Result<String, String> {
+    let path = fields[0];
+    let targets: Vec<String> = dec_list(',', fields[1]).iter().map(|t| dec_str(t)).collect::<Option<_>>().ok_or("targets")?;
+    let mut cfgs = vec![];
+    for ch in fields[2..].chunks(4) {
+        cfgs.push(Cfg::decode(ch).ok_or("config")?);
+    }
+    let mut steps: Vec<String> = vec![];
+    let sink = Arc::new(Mutex::new(Vec::<String>::new()));
+    let mut scratch: Option<std::path::PathBuf> = None;
+    let result = (|| -> Result<(), String> {
+        match path {
+            "config" | "handler" => {
+                let mut cap = Capture::Memory(sink.clone());
+                let first = c01::build_config(&cfgs[0], &sink)?;
+                let handle = if path == "config" {
+                    log4rs::init_config(first).map_err(|e| e.to_string())?
+                } else {
+                    log4rs::config::init_config_with_err_handler(first, Box::new(|_e: &anyhow::Error| {}))
+                        .map_err(|e| e.to_string())?
+                };
+                steps.push(observe(&targets, &mut cap));
+                for c in &cfgs[1..] {
+                    handle.set_config(c01::build_config(c, &sink)?);
+                    steps.push(observe(&targets, &mut cap));
+                }
+            }
+            _ => {
+                let base = std::env::var("VERIF_SCRATCH").map(std::path::PathBuf::from).unwrap_or_else(|_| std::env::temp_dir());
+                let dir = base.join(format!("c02_{}", std::process::id()));
+                std::fs::create_dir_all(&dir).map_err(|e| e.to_string())?;
+                scratch = Some(dir.clone());
+                let out = dir.join("out.log");
+                let doc = raw_json(&cfgs[0], &out);
+                if path == "raw" {
+                    let raw: log4rs::config::RawConfig = serde_json::from_str(&doc).map_err(|e| e.to_string())?;
+                    log4rs::init_raw_config(raw).map_err(|e| e.to_string())?;
+                } else {
+                    let f = dir.join("cfg.json");
+                    std::fs::write(&f, doc).map_err(|e| e.to_string())?;
+                    log4rs::init_file(&f, Default::default()).map_err(|e| e.to_string())?;
+                }
+                let mut cap = Capture::File { path: out, offset: 0 };
+                steps.push(observe(&targets, &mut cap));
+            }
+        }
+        Ok(())
+    })();
+    if let Some(d) = scratch {
+        let _ = std::fs::remove_dir_all(d);
+    }
+    result.map(|()| steps.join("/"))
+}
+
+/// `verif-harness child c02`: the case line (without the property id) on stdin, the observation on stdout
 pub fn child(_args: &[String]) -> i32 {
-    2
+    let mut line = String::new();
+    if std::io::stdin().read_line(&mut line).is_err() {
+        return 2;
+    }
+    let line = line.trim_end_matches('\n').to_owned();
+    let fields: Vec<&str> = line.split('\t').collect();
+    if fields.len() < 6 {
+        return 2;
+    }
+    let r = guarded(std::panic::AssertUnwindSafe(|| child_run(&fields)));
+    let obs = match r {
+        Ok(Ok(s)) => s,
+        Ok(Err(e)) => format!("ERROR:{}", e.replace(['\n', '\t'], " ")),
+        Err(_) => "PANIC".to_owned(),
+    };
+    println!("{}", obs);
+    0
 }
